@@ -12,7 +12,10 @@ import (
 	"verif/mc/sched"
 )
 
-func init() { schedBody = body }
+func init() {
+	schedBody = body
+	userYield = func() { hook.Point("user.callback", nil) }
+}
 
 // expected results: every call run alone on a fresh state
 var expected = map[string][][]string{}
